@@ -26,6 +26,7 @@ Verdict(r) ==
        THEN "ok" ELSE "harness:bad-initial-state"
   ELSE IF r.op = "panic" THEN "Panic"
   ELSE IF r.op = "error" THEN "Error"
+  ELSE IF r.op = "harness_error" THEN "harness:git-plumbing-failed"
   ELSE IF r.post.extra # <<>> THEN "NoExtraRefs"
   ELSE IF r.op \in UserOps THEN
        IF FrameOK(cur, Obs(r.post), r.op, r.b, r.c) THEN "ok" ELSE "FrameOK"
@@ -54,7 +55,7 @@ Next ==
           /\ (IF v = "ok" THEN TRUE ELSE PrintT(<<"BAD", l, v>>))
           /\ (IF v \in {"ok", "ImportOK", "ImportIdemOK", "ExportOK", "ConvergeOK"} /\ Diverges(r)
               THEN PrintT(<<"DIVERGES", l>>) ELSE TRUE)
-          /\ IF r.op \in {"panic", "error"}
+          /\ IF r.op \in {"panic", "error", "harness_error"}
              THEN UNCHANGED <<cur, par>> /\ prevop' = r.op
              ELSE /\ cur' = Obs(r.post)
                   /\ par' = IF r.op = "reset" THEN r.par ELSE par
